@@ -245,6 +245,8 @@ def build_world(world, config, groups, thorough=True, stacks=None, quiet=False):
             lflags += ['-Wl,--wrap=pthread_mutex_lock', '-Wl,--wrap=pthread_mutex_unlock',
                        '-Wl,--wrap=pthread_mutex_trylock', '-Wl,--wrap=__cxa_guard_acquire',
                        '-Wl,--wrap=__cxa_guard_release', '-Wl,--wrap=__cxa_guard_abort', '-Wl,--wrap=pthread_once']
+        if threads:
+            lflags += ['-rdynamic', '-ldl']
         cmd = ['g++', '-o', exe, '@' + rsp] + lflags + ['-pthread']
         r = subprocess.run(cmd, capture_output=True, text=True)
         if r.returncode != 0:
